@@ -469,17 +469,24 @@ class _Env:
         self.pristine[cid] = core.jdump(canon(self.pool[cid]))
         if cid in self.vmaps:
             self.pristine_vmaps[cid] = core.jdump(canon(self.vmaps[cid]))
+        if not hasattr(self, "edits"):
+            self.edits = {}
+        self.edits[cid] = self.edits.get(cid, 0) + 1
 
-    def _owned_binner(self, cid, kind, valueof):
-        """The caller's own bins-manager for direct calls on container cid: created once, re-used for every later
-        direct call (its value function is an indirection, so that a per-call faulty valueof can be swapped in)."""
+    def _owned_binner(self, cid, kind, valueof, faulty):
+        """The caller's own bins-manager for direct calls on container cid: created once and re-used for every later
+        direct call on that container, as long as the caller has not edited the container (after an edit the caller
+        builds a new manager: one that memoises values per instance would otherwise be blamed for the caller's edit).
+        A call that is given a failing value function gets a manager of its own for the same reason."""
         import prtpy
+        cls = prtpy.BinnerKeepingContents if kind == "contents" else prtpy.BinnerKeepingSums
+        if faulty:
+            return cls(valueof)
         if not hasattr(self, "_binners"):
             self._binners, self._vo = {}, {}
         self._vo[cid] = valueof
-        key = (cid, kind)
+        key = (cid, kind, getattr(self, "edits", {}).get(cid, 0))
         if key not in self._binners:
-            cls = prtpy.BinnerKeepingContents if kind == "contents" else prtpy.BinnerKeepingSums
             vo = self._vo
             self._binners[key] = cls(lambda item, _cid=cid: vo[_cid](item))
         return self._binners[key]
@@ -552,7 +559,7 @@ class _Env:
                         names, vo = items.keys(), (valueof if valueof is not None else items.__getitem__)
                     else:
                         names, vo = items, (valueof if valueof is not None else (lambda item: item))
-                    val = algo(self._owned_binner(cid, op["direct"], vo), op["param"], names, **kw)
+                    val = algo(self._owned_binner(cid, op["direct"], vo, fault.get("kind") == "valueof"), op["param"], names, **kw)
                 elif op["fn"] == "partition":
                     otype = getattr(out, op["out"])
                     val = prtpy.partition(algorithm=algo, numbins=op["param"], items=items, valueof=valueof, outputtype=otype, **kw)
